@@ -1,5 +1,6 @@
 import CifModel.Lemmas.ParserTop
 import CifModel.Lemmas.ParserStructure
+import CifModel.Props.C01
 /-
   Props/C01parse — the integrated layer of property C01 (well-formed CIF parses to exactly the content it denotes): theorems
   about value construction in `Model.Parser` and kernel-evaluated instances of the whole parser on rendered documents.
@@ -146,6 +147,61 @@ def theValue (c : Cif) : Option V :=
   | [Container.mk _ [] [l]] => match l.packets with | [[v]] => some v | _ => none
   | _ => none
 end C01parse
+
+/-! ### the lexical hypothesis is satisfiable: `Feeds` from the scanner theorems of Props/C01.lean -/
+
+/-- one scanner step: an equation of the scanner model (as the C01_lex_* theorems provide them) is one link of `Feeds` -/
+theorem C01_feeds_of_lex {o : Opts} {sc sc' : Scan} {t : Tok} {ts : List TokSpec}
+    (h : ∀ pol log, nextToken o.dia sc pol log = .ok (t, sc') log) (hr : Feeds o { scan := sc', tok := none } ts) :
+    Feeds o { scan := sc, tok := none } ((t.ty, t.text) :: ts) := by
+  refine Feeds.cons (s' := { scan := sc', tok := some t }) ?_ rfl hr
+  intro pol w
+  simp [nextTok, Parser.bind_eq, Parser.pure_eq, P.bind, P.pure, liftL, h]
+
+namespace C01parse
+/-- `data_a _x 'v w'` + newline, as an abstract document -/
+def smallDoc : Doc := [{ code := a!"a", body := [.plain (.item (a!"_x") (.str (a!"v w") .squote))] }]
+end C01parse
+
+/-- non-vacuity of `C01_structure` / `C01_parse_render_partial`: for the characters `data_a _x 'v w'⏎` the hypothesis `Feeds` is
+    PROVED from the scanner theorems C01_lex_keyword, C01_lex_sep, C01_lex_name, C01_lex_value_after_ws — the composition pattern
+    of the lexical glue on one document — and the document is well-formed -/
+theorem C01_feeds_instance :
+    Feeds C01parse.opts2 { scan := Scan.init (a!"data_a _x 'v w'\n"), tok := none } (tokensOf C01parse.smallDoc)
+    ∧ C01_wfDoc C01parse.opts2 C01parse.smallDoc = true := by
+  refine ⟨?_, by decide +kernel⟩
+  show Feeds C01parse.opts2 _ [(.blockHead, a!"a"), (.name, a!"_x"), (.qvalue, a!"v w"), (.end_, [])]
+  -- data_a
+  refine C01_feeds_of_lex (t := ⟨.blockHead, a!"a", 1, 6⟩) (sc' := ⟨a!" _x 'v w'\n", 1, 6, .blockHead⟩) ?_ ?_
+  · intro pol log
+    exact (C01_lex_keyword .cif2 100 97 116 97 95 (a!"a") (a!" _x 'v w'\n") 1 0 .end_ pol log rfl (by decide) (by decide)).1
+      (by decide) (by decide)
+  -- blank, _x
+  refine C01_feeds_of_lex (t := ⟨.name, a!"_x", 1, 9⟩) (sc' := ⟨a!" 'v w'\n", 1, 9, .name⟩) ?_ ?_
+  · intro pol log
+    have h1 := C01_lex_sep .cif2 [.blank 32] (a!"_x 'v w'\n") 1 6 .blockHead .end_ pol log (by decide) (by decide)
+      (Or.inr (by intro b rest h; cases h)) (by decide)
+    have h2 := C01_lex_name .cif2 (a!"x") (a!" 'v w'\n") 1 7 .end_ pol log rfl (by decide) (by decide)
+    exact h1.trans h2
+  -- blank, 'v w'
+  refine C01_feeds_of_lex (t := ⟨.qvalue, a!"v w", 1, 15⟩) (sc' := ⟨a!"\n", 1, 15, .qvalue⟩) ?_ ?_
+  · intro pol log
+    exact C01_lex_value_after_ws .cif2 [.blank 32] .squote (a!"v w") (a!"\n") 1 9 .name pol log (by decide)
+      (Or.inr (by intro b rest h; cases h)) (by decide) (by decide) (by decide) (by decide) (by decide) (by decide)
+  -- newline, end of input
+  refine C01_feeds_of_lex (t := ⟨.end_, [], 2, 0⟩) (sc' := ⟨[], 2, 0, .end_⟩) ?_ (Feeds.nil _)
+  · intro pol log
+    have h1 := C01_lex_sep .cif2 [.eol] [] 1 15 .qvalue .end_ pol log (by decide) (by decide)
+      (Or.inr (by intro b rest h; cases h)) (by decide)
+    exact h1.trans rfl
+
+/-- … and therefore, for EVERY callback policy, the whole parse of these characters returns CIF_OK, reports nothing and yields the
+    denoted content (C01_parse_render_partial with all its hypotheses discharged) -/
+theorem C01_parse_render_instance (pol : Policy) :
+    parse C01parse.opts2 pol [] (a!"data_a _x 'v w'\n")
+      = { rc := 0, log := [], cif := denote .cif2 id C01parse.smallDoc } :=
+  C01_parse_render_partial C01parse.opts2 C01parse.smallDoc 100 (a!"ata_a _x 'v w'\n") pol rfl (by decide) rfl
+    C01_feeds_instance.2 (by decide) (by decide) (by decide +kernel) C01_feeds_instance.1
 
 set_option maxRecDepth 1000000 in
 /-- a folded + prefixed text field inside a list: `[` `;> \\` `> ab\` `> cd` `;` `]` reads as the list ["abcd"] -/
